@@ -642,3 +642,157 @@ pub fn gen_grammar(rng: &mut Rng) -> String {
     }
     out
 }
+
+// ------------------------------------------------------------------------------------------ feature soup
+// Declaration-level generator: rarely used but syntactically valid features (templates, namespaces, enums with
+// expressions, modifiers on every kind of type, declared-only functions, inheritance, object types and their
+// methods, literal suffixes, multi-declarator statements).  Names refer to earlier declarations, so a good share
+// of the files type-check and reach the exporters ("unsupported constructs" are the point).
+
+const F_SCALARS: &[&str] = &["int", "uint", "float", "bool", "half", "double", "float2", "float3", "float4", "int2", "uint3", "bool2",
+    "float2x2", "float3x3", "float4x4", "int2x2", "bool2x2", "float2x3", "half4", "uint64_t", "int64_t", "float16_t"];
+const F_OBJECTS: &[&str] = &["Texture2D<float4>", "Texture2D", "Texture2DArray<float4>", "Texture3D<float4>", "TextureCube<float4>",
+    "RWTexture2D<float4>", "RWTexture2D<unorm float4>", "Texture2D<const float4>", "Buffer<float4>", "RWBuffer<uint>", "StructuredBuffer<S0>",
+    "RWStructuredBuffer<S0>", "RWStructuredBuffer<unorm float>", "ByteAddressBuffer", "RWByteAddressBuffer", "BufferAddress", "RWBufferAddress",
+    "ConstantBuffer<S0>", "ConstantBuffer<const S0>", "ConstantBuffer<float4>", "SamplerState", "SamplerComparisonState",
+    "RaytracingAccelerationStructure", "RayQuery<0>", "RayDesc", "StructuredBuffer<float4>"];
+const F_MODS: &[&str] = &["const", "volatile", "row_major", "column_major", "unorm", "snorm", "static", "extern", "groupshared", "static const", "inline", "constexpr"];
+const F_EXPRS: &[&str] = &["0", "1", "2", "true", "1.0", "1.0f", "1u", "1l", "1ul", "1.0h", "1e999", "1e999L", "-2147483648", "4294967295", "1 << 100",
+    "sizeof(1.0)", "sizeof(1)", "sizeof(int)", "sizeof(S0)", "(1).xx", "1.0.xx", "float2(1, 2)", "(float3)0", "E0_A", "(E0)1", "!E0_A", "~1ul", "c0", "c0 + 1",
+    "v0", "v0.x", "m0", "!m0", "-m0", "m0 * m0", "s0", "s0.a", "f0()", "f0() + 1", "t0<int>(1)", "t0(1)", "g0", "g0.mips", "g0.mips[0]", "g0.Load(int3(0, 0, 0))",
+    "g1.Load(0)", "g1.Load<float4>(0)", "g1.Load<4>(0)", "N0::x", "N0::f()", "(N0::x)+(1)", "RAY_FLAG_NONE", "WaveGetLaneIndex()",
+    "true ? v0 : v0", "true ? m0 : m0", "CF(1)", "CF2(1, 2)", "(CF)1", "asuint(1.0f)", "f16tof32(1u)", "(volatile int)1", "s0.::a"];
+
+struct Feat<'a> {
+    rng: &'a mut Rng,
+    n: u32,
+}
+
+impl<'a> Feat<'a> {
+    fn ty(&mut self) -> String {
+        match self.rng.below(12) {
+            0..=5 => self.rng.pick(F_SCALARS).to_string(),
+            6 => self.rng.pick(&["S0", "E0", "CF", "CF2", "S0", "E0", "N0::S1"]).to_string(),
+            7 => format!("vector<{}, {}>", self.rng.pick(&["float", "int", "bool", "S0", "E0", "float3", "T"]), self.rng.range(1, 5)),
+            8 => format!("matrix<{}, {}, {}>", self.rng.pick(&["float", "int", "float2", "T"]), self.rng.range(1, 4), self.rng.range(1, 4)),
+            _ => self.rng.pick(F_OBJECTS).to_string(),
+        }
+    }
+    fn mods(&mut self) -> String {
+        match self.rng.below(6) {
+            0..=2 => String::new(),
+            3..=4 => format!("{} ", self.rng.pick(F_MODS)),
+            _ => format!("{} {} ", self.rng.pick(F_MODS), self.rng.pick(F_MODS)),
+        }
+    }
+    fn expr(&mut self) -> String {
+        match self.rng.below(8) {
+            0..=4 => self.rng.pick(F_EXPRS).to_string(),
+            5 => format!("{} {} {}", self.rng.pick(F_EXPRS), self.rng.pick(&["+", "*", "<<", "==", "&&", "%", ","]), self.rng.pick(F_EXPRS)),
+            6 => format!("({}){}", self.ty(), self.rng.pick(F_EXPRS)),
+            _ => format!("{}{}", self.rng.pick(&["-", "!", "~", "+", "++", "--"]), self.rng.pick(F_EXPRS)),
+        }
+    }
+    fn name(&mut self, p: &str) -> String {
+        self.n += 1;
+        format!("{}{}", p, self.n)
+    }
+    fn stmt(&mut self) -> String {
+        match self.rng.below(14) {
+            0..=2 => format!("    {}{} {} = {};\n", self.mods(), self.ty(), self.name("l"), self.expr()),
+            3 => format!("    {}{} {};\n", self.mods(), self.ty(), self.name("l")),
+            4 => format!("    {};\n", self.expr()),
+            5 => format!("    {} = {};\n", self.rng.pick(&["v0", "m0", "s0.a", "v0.x", "g2[0]", "g0.mips[0]", "s_g"]), self.expr()),
+            6 => format!("    for ({} a = {}, b[2];;) {{ break; }}\n", self.ty(), self.expr()),
+            7 => format!("    switch (1) {{ case {}: break; default: break; }}\n", self.expr()),
+            8 => format!("    {{ {}{} {}[{}]; }}\n", self.mods(), self.ty(), self.name("l"), self.rng.pick(&["2", "c0", "sizeof(int)", "0", "4294967296", "N"])),
+            9 => format!("    if ({}) {{ return; }}\n", self.expr()),
+            10 => format!("    {}({});\n", self.rng.pick(&["f0", "t0", "t0<int>", "t0<float3>", "t1", "t1<3>", "tv<float>", "tv<float3>", "N0::f", "s0.m", "s0.m", "f0", "GroupMemoryBarrier", "g2.Store", "InterlockedAdd"]), self.expr()),
+            11 => format!("    {}++;\n", self.rng.pick(&["v0.x", "lv", "s0.a", "m0"])),
+            12 => format!("    {} {} = {{ {} }};\n", self.ty(), self.name("l"), self.expr()),
+            _ => format!("    {} {} = {{}};\n", self.rng.pick(&["S0", "SE", "float2", "int"]), self.name("l")),
+        }
+    }
+    fn root(&mut self) -> String {
+        match self.rng.below(22) {
+            0..=2 => format!("{}{} {};\n", self.mods(), self.ty(), self.name("g")),
+            3 => format!("{}{} {} = {};\n", self.mods(), self.ty(), self.name("g"), self.expr()),
+            4 => format!("{}{} {}[{}];\n", self.mods(), self.ty(), self.name("g"), self.rng.pick(&["4", "c0", "4294967295", "4294967296", "0"])),
+            5 => format!("typedef {}{} {};\n", self.mods(), self.ty(), self.name("TD")),
+            6 => format!("enum {} {{ {}_A = {}, {}_B }};\n", self.name("E"), self.name("e"), self.expr(), self.name("e")),
+            7 => format!("struct {} : S0 {{ {} x; void m2() {{}} }};\n", self.name("S"), self.ty()),
+            8 => format!("struct {} {{ {}{} x; {} fn_decl(); }};\n", self.name("S"), self.mods(), self.ty(), self.ty()),
+            9 => format!("template<typename T{}> struct {} {{ T x; }};\n", self.rng.pick(&["", " = int", ", int N", ", int N = 1"]), self.name("TS")),
+            10 => format!("template<{}> {} {}({} x{}) {{ }}\n", self.rng.pick(&["typename T", "typename T = int", "int N", "int N = 1", "typename T, int N"]),
+                self.rng.pick(&["void", "T", "vector<T, 2>"]), self.name("t"), self.rng.pick(&["T", "int", "vector<T, 3>", "float x2[N], int"]),
+                self.rng.pick(&["", " = 1", " = (T)1 + (T)2"])),
+            11 => format!("{} {}({} a{});\n", self.ty(), self.name("fd"), self.ty(), self.rng.pick(&["", " = 1", "[2]"])),
+            12 => format!("namespace {} {{ {} namespace {} {{ {} }} }}\n", self.rng.pick(&["N0", "N1", "N2"]), self.root_simple(), self.rng.pick(&["N0", "N1"]), self.root_simple()),
+            13 => format!("[[rssl::bindless]] {} {};\n", self.rng.pick(&["Texture2D<float4>", "ByteAddressBuffer", "cbuffer", "SamplerState"]), self.name("gb")),
+            14 => format!("cbuffer {} {{ {}{} x{}; }}\n", self.name("CB"), self.mods(), self.ty(), self.rng.pick(&["", " : packoffset(c0)", "[2]"])),
+            15 => format!("{} {} : register({});\n", self.rng.pick(F_OBJECTS), self.name("gr"), self.rng.pick(&["t0", "u1", "b0", "s0", "t0, space1", "space3", "space4", "t99, space7", "u0, space4294967295"])),
+            16 => format!("static {} {} = {};\n", self.ty(), self.name("sg"), self.expr()),
+            17 => format!("void {}(out vertices S0 v[3], out indices uint3 t[1], {} p : SV_Position) {{}}\n", self.name("ms"), self.ty()),
+            18 => format!("Pipeline {} {{ {} = {}; }}\n", self.name("P"), self.rng.pick(&["ComputeShader", "VertexShader", "PixelShader", "MeshShader", "TaskShader"]),
+                self.rng.pick(&["f0", "fd", "t0", "cs0", "GroupMemoryBarrier", "N0::f", "ms1"])),
+            _ => {
+                let mut s = format!("{}{} {}({}{} p0{}) {{\n    int lv = 0;\n", self.rng.pick(&["", "", "[numthreads(1,1,1)] ", "static ", "inline "]),
+                    self.rng.pick(&["void", "void", "void", "int", "float4"]).to_string(), self.name("fn"),
+                    self.rng.pick(&["", "", "in ", "out ", "inout ", "const ", "volatile "]), self.ty(), self.rng.pick(&["", "", " : SV_Position", " = 1", "[2]"]));
+                let void = s.contains("void ");
+                for _ in 0..(1 + self.rng.below(5)) {
+                    let st = self.stmt();
+                    if !void && st.contains("return;") {
+                        continue;
+                    }
+                    s.push_str(&st);
+                }
+                if !void {
+                    s.push_str(&format!("    return ({}){};\n", if s.starts_with("int") || s.contains(" int fn") { "int" } else { "float4" }, self.expr()));
+                }
+                s.push_str("}\n");
+                s
+            }
+        }
+    }
+    fn root_simple(&mut self) -> String {
+        match self.rng.below(4) {
+            0 => "static const int x = 1;".to_string(),
+            1 => "int f() { return 1; }".to_string(),
+            2 => format!("struct S1 {{ {} a; }};", self.ty()),
+            _ => format!("enum EN {{ X{} }};", self.rng.pick(&["", " = 1", " = sizeof(EN)"])),
+        }
+    }
+}
+
+pub fn gen_features(rng: &mut Rng) -> String {
+    let mut f = Feat { rng, n: 0 };
+    let mut out = String::from(
+        "struct S0 { float a; int b; void m(int x) {} };\nstruct SE {};\nenum E0 { E0_A, E0_B = 2 };\ntypedef const float CF;\ntypedef const float2 CF2;\n\
+         namespace N0 { static const int x = 1; int f() { return 1; } struct S1 { int a; }; }\n\
+         static const int c0 = 2;\nint f0() { return 1; }\ntemplate<typename T> T t0(T x) { return x; }\ntemplate<int N> void t1() {}\ntemplate<typename T> void tv(vector<T, 3> x) {}\n\
+         Texture2D<float4> g0;\nByteAddressBuffer g1;\nRWStructuredBuffer<float4> g2;\nstatic int s_g = 0;\n[numthreads(1,1,1)] void cs0() {}\n",
+    );
+    if f.rng.chance(1, 6) {
+        out.push_str(*f.rng.pick(&["template<typename T> struct TS0 { T x; };\n", "void fd(int x);\n", "namespace N0 { namespace N0 { static const int x = 2; } }\n",
+            "struct SM { void md(int x); };\n"]));
+    }
+    // a prelude line may be dropped so that its users become errors of a different kind
+    if f.rng.chance(1, 8) {
+        let lines: Vec<&str> = out.lines().collect();
+        let k = f.rng.below(lines.len() as u64) as usize;
+        out = lines.iter().enumerate().filter(|(i, _)| *i != k).map(|(_, l)| format!("{}\n", l)).collect();
+    }
+    out.push_str("void user(float4 v0, float2x2 m0, S0 s0) {\n    int lv = 0;\n");
+    for _ in 0..(f.rng.below(4)) {
+        let st = f.stmt();
+        out.push_str(&st);
+    }
+    out.push_str("}\n");
+    let n = 1 + f.rng.below(5);
+    for _ in 0..n {
+        let r = f.root();
+        out.push_str(&r);
+    }
+    out
+}
